@@ -3,6 +3,7 @@ package main
 import (
 	"fmt"
 	"go/token"
+	"strings"
 
 	"golang.org/x/tools/go/ssa"
 )
@@ -21,6 +22,9 @@ func runC19(c *Ctx) {
 	// (4)/(5) shared: membership operations keep list, map, notification and Close in step
 	c05Paired(c)
 	c04IndexKeys(c)
+	c19Addresses(c, "membership-events")
+	c19BackendClose(c, "membership-events")
+	c19FirstRegistration(c, "diff-direction")
 }
 
 func c04IndexKeys(c *Ctx) {
@@ -533,4 +537,157 @@ func c19NotifyCallers(c *Ctx, rule string) {
 		}
 		c.check(okDyn, rule, "ResolveHost/only-the-new-subscriber", w.pos(rh.Pos()), "a late subscriber alone is told the known addresses", "ResolveHost invokes a callback other than the one being registered")
 	}
+}
+
+// c19Addresses: the address a backend is known under (list, map, proxy index, removal) is built in one canonical way:
+// a static backend uses the URL's host:port text as configured; a resolved one createHostPort(ip, port), which
+// brackets exactly the IPv6 literals (isIPv6: the text contains ':'); a UDP backend answers GetAddress() with the
+// canonical text of its socket address. A second spelling of the same address makes removals and the attribution of
+// responses miss.
+func c19Addresses(c *Ctx, rule string) {
+	w := c.w
+	if f := c.fn(rule, "isIPv6"); f != nil {
+		good := false
+		for _, r := range returnsUnder(f, nil) {
+			cc := w.resultOfCallTo(r.Results[0], "strings.Contains", 0)
+			if cc != nil && isParam(f, cc.Call.Args[0], 0) {
+				if s, ok := constString(cc.Call.Args[1]); ok && s == ":" {
+					good = true
+				}
+			}
+		}
+		c.check(good && len(returnsUnder(f, nil)) == 1, rule, "isIPv6/contains-colon", w.pos(f.Pos()), "an address is IPv6 exactly when its text contains ':'", "isIPv6 is not `strings.Contains(ip, \":\")`: createHostPort brackets addresses by it, so an IPv4 address taken for IPv6 (net.ParseIP returns 16 bytes for both) is added as [a.b.c.d]:port and never matches the key it is removed or recognised under")
+	}
+	if f := c.fn(rule, "(*RoundRobinBackend).createHostPort"); f != nil {
+		v6 := func(a Atom) bool {
+			if a.Kind != "bool" {
+				return false
+			}
+			cc := w.resultOfCallTo(a.X, "isIPv6", 0)
+			return cc != nil && isParam(f, callArg(cc, 0), 1)
+		}
+		okShape := true
+		for _, val := range []bool{true, false} {
+			keep := w.under(assumeAtom(v6, val))
+			for _, r := range returnsUnder(f, keep) {
+				for _, v := range valuesUnder(f, r.Results[0], keep) {
+					sv := w.evalStrUnder(f, v, keep)
+					txt := renderParts(sv.parts, func(x ssa.Value) string {
+						for i, p := range f.Params {
+							if strip(x) == ssa.Value(p) {
+								return fmt.Sprintf("p%d", i)
+							}
+						}
+						return "?"
+					})
+					want := "{p1:%s}:{p2:%s}"
+					if val {
+						want = "[{p1:%s}]:{p2:%s}"
+					}
+					if txt != want {
+						okShape = false
+					}
+				}
+			}
+		}
+		c.check(okShape && len(w.ifsTesting(f, v6)) > 0, rule, "createHostPort/shape", w.pos(f.Pos()), "ip:port, [ip]:port for IPv6", "createHostPort does not build ip:port (and [ip]:port exactly for IPv6 literals)")
+	}
+	if f := c.fn(rule, "(*UDPBackend).GetAddress"); f != nil {
+		good := false
+		for _, r := range returnsUnder(f, nil) {
+			cc, _ := callOfResult(r.Results[0])
+			if cc != nil && strings.HasSuffix(w.calleeName(cc), "UDPAddr).String") {
+				if b, ok := isLoadOf(callArg(cc, -1), "UDPBackend.backendAddr"); ok && isParam(f, b, 0) {
+					good = true
+				}
+			}
+		}
+		c.check(good, rule, "(*UDPBackend).GetAddress/canonical", w.pos(f.Pos()), "the canonical text of the backend's socket address", "UDPBackend.GetAddress does not return backendAddr.String(): the proxy recognises a backend by the canonical text of a packet's source address, so a backend configured with another spelling of its address (an IPv6 literal with capital letters or leading zeros) is not recognised - its responses bind dialogs to the whole pool")
+	}
+	if f := c.fn(rule, "CreateRoundRobinBackend"); f != nil {
+		n := 0
+		good := true
+		for _, cs := range w.callsIn(f, "NewUDPBackend", "NewTCPBackend") {
+			n++
+			b, ok := isLoadOf(callArg(cs.In, 1), "URL.Host")
+			if !ok {
+				good = false
+			}
+			_ = b
+		}
+		c.check(good && n == 2, rule, "CreateRoundRobinBackend/static-address", w.pos(f.Pos()), "a static backend is created at the URL's host:port as configured", "a statically configured backend is not created at u.Host (the host:port of its URL) unmodified: an IPv6 literal that is re-bracketed becomes [[::1]]:5060, which can never be dialled")
+	}
+}
+
+// c19BackendClose: removing a backend closes its connection whenever it has one: TCPBackend.Close takes the lock
+// unconditionally (no TryLock that gives up while a Send is in flight) and closes conn on every path where it is set.
+func c19BackendClose(c *Ctx, rule string) {
+	w := c.w
+	f := c.fn(rule, "(*TCPBackend).Close")
+	if f == nil {
+		return
+	}
+	var cl ssa.Instruction
+	for _, cs := range w.callsIn(f) {
+		if strings.HasSuffix(cs.Name, ".Close") && strings.Contains(cs.Name, "net.") {
+			if b, ok := isLoadOf(cs.In.Common().Value, "TCPBackend.conn"); ok && isParam(f, b, 0) {
+				cl = cs.In
+			}
+		}
+	}
+	if cl == nil {
+		c.bad(rule, "(*TCPBackend).Close/closes", w.pos(f.Pos()), "TCPBackend.Close does not close t.conn")
+		return
+	}
+	isSet := func(a Atom) bool {
+		if a.Kind != "nil" {
+			return false
+		}
+		b, ok := isLoadOf(a.X, "TCPBackend.conn")
+		return ok && isParam(f, b, 0)
+	}
+	mn, mx, inf := countSites(entryPt(f), w.under(assumeAtom(isSet, false)), isInstr(cl))
+	c.check(mn == 1 && mx == 1 && !inf, rule, "(*TCPBackend).Close/closes", w.ipos(cl), "an open connection is always closed", fmt.Sprintf("with a connection open TCPBackend.Close closes it min=%d max=%d times (e.g. it gives up when the lock is busy): a backend removed while a send to it is in flight keeps its connection open for ever", mn, mx))
+}
+
+// c19FirstRegistration: the first subscriber of a host name gets its first addresses through addressResolved, which
+// records them as known; a direct call of the callback leaves the known set empty, so the next resolution announces
+// every address as new a second time and a later removal takes out only one of the two copies.
+func c19FirstRegistration(c *Ctx, rule string) {
+	w := c.w
+	f := c.fn(rule, "(*DynamicHostResolver).ResolveHost")
+	if f == nil {
+		return
+	}
+	var lk *ssa.Lookup
+	eachInstr(f, func(in ssa.Instruction) {
+		if l, ok := in.(*ssa.Lookup); ok && l.CommaOk && isParam(f, l.Index, 1) && lk == nil {
+			if _, isT := isLoadOf(l.X, "DynamicHostResolver.hostIPs"); isT {
+				lk = l
+			}
+		}
+	})
+	var ar, dr ssa.CallInstruction
+	for _, cs := range w.callsIn(f, "(*DynamicHostResolver).addressResolved") {
+		ar = cs.In
+	}
+	for _, cs := range w.callsIn(f, "(*DynamicHostResolver).doResolve") {
+		dr = cs.In
+	}
+	if lk == nil || ar == nil || dr == nil {
+		c.bad(rule, "ResolveHost/first-registration", w.pos(f.Pos()), "ResolveHost does not look the host up, resolve a new one and pass its addresses to addressResolved")
+		return
+	}
+	known := func(a Atom) bool {
+		e, isE := a.X.(*ssa.Extract)
+		return a.Kind == "bool" && isE && e.Tuple == ssa.Value(lk) && e.Index == 1
+	}
+	good := isParam(f, callArg(ar, 0), 1) && isResultOf(callArg(ar, 1), dr, 0) && w.requires(f, ar, known, false) && w.requires(f, ar, errNil(dr), true)
+	// no direct callback on the new-host side
+	for _, cs := range w.callsIn(f, "dyn") {
+		if !w.requires(f, cs.In, known, true) {
+			good = false
+		}
+	}
+	c.check(good, rule, "ResolveHost/first-registration", w.ipos(ar), "the first addresses of a new host go through addressResolved", "for a host name seen for the first time ResolveHost does not hand the resolved addresses to addressResolved (which records them as known before notifying): the next periodic resolution adds every address a second time, and a vanished address leaves a ghost backend in the rotation")
 }
